@@ -158,8 +158,10 @@ namespace verif
                 }
                 if (lo > hi)
                 {
+                    // a limit of the harness, not of the library: the run is discarded (exit code 77)
                     std::fprintf(stderr, "verif region exhausted\n");
-                    std::abort();
+                    std::fflush(stdout);
+                    std::_Exit(77);
                 }
             }
             outstanding.push_back({o, size, align, cur_tag});
